@@ -337,3 +337,86 @@ Check SrcTie3Reader.translated_reader_nonvacuous.
 Theorem C10_tie_translated_reader_nonvacuous : ltac:(let t := type of SrcTie3Reader.translated_reader_nonvacuous in exact t).
 Proof. exact SrcTie3Reader.translated_reader_nonvacuous. Qed.
 Print Assumptions C10_tie_translated_reader_nonvacuous.
+
+(* ================= work package `carry2`: C10 about the GENERATED reader over the GENERATED layer stack =================
+   hist_op_src (theories/Carry2Hist.v) is Run.hist_op written over the functions translated from /repo: ArchiveReader::
+   list_files / get_hash / get_file, BlocksToFileReader::read (gen/Src3d.v), helpers::linear_extract (gen/Src3l.v); the
+   stream under them is Carry2Stack.StackSrc: translated compression reader over translated encryption reader over
+   translated raw layer over any source whose absolute seek forgets (in-memory cursor, throttled file).
+   C10_history_independent_src: any archive bytes, any footer m, any stack state x0 that is not poisoned, any history
+     every operation of which leaves THIS reader un-poisoned: in the history, the rows of every operation are the rows it
+     produces on this reader itself.  Premises beyond those of C10_stack_hist_independent: the u32 fields of x0 are u32
+     (wf), CHUNK_TAG_SIZE <= u64::MAX, the fuel F of the translated read loop covers every offsets table, and no read of
+     the model reader over this stack ends with the MODEL's own out-of-fuel (op_fuelled: C10_tie_bfr_read_sim relates the
+     two read loops only then; same kind of premise as CliExtract.copies_fuelled).
+   How: C10_hist_op_src_is_hist_op (same stream: the translated operations are the model's), C10_reader_parametric (the
+   model reader over two simulated streams returns the same rows: Carry2Sim.v, the heterogeneous form of HistStack part 1),
+   C10_stack_sim_src (StackSrc is simulated read by read and absolute seek by absolute seek by the model stack CompS:
+   the three layer simulations + the model's EncReader / CompReader as functors on simulations), C10_stack_hist_independent. *)
+From MLA Require SrcTie3Comp CarryReader Carry2Stack Carry2Sim Carry2SimLayers Carry2Hist.
+From MLAGen Require Src3d Src3l.
+
+Theorem C10_history_independent_src :
+  forall (k : consts) (CHUNK TAG BLOCK : N) (ks : N -> N -> N) (tagc : N -> bytes -> bytes) (dec : bytes -> bytes),
+    0 < CHUNK -> SrcTie3Enc.cts_fits CHUNK TAG -> BLOCK < 2 ^ 32 -> BLOCK <> 0 ->
+  forall Src : Stream, SeekForgetsP Src (fun _ _ => True) ->
+  forall (site_index site_enc s1 s2 s3 : N) (fuel_enc : nat),
+  let T := Carry2Stack.StackSrc CHUNK TAG BLOCK ks tagc dec Src site_enc s1 s2 s3 fuel_enc in
+  let absStack := Carry2Hist.absStack CHUNK TAG BLOCK ks tagc dec Src site_enc s1 s2 s3 fuel_enc in
+  forall si0 off0 (F fuel : nat) (names : list bytes) (m : footer) (x0 : st T) (ops : list (list N)),
+    let ar0 := Src3d.mkAR T x0 (Some m) in
+    SrcTie3Comp.wf (Carry2Stack.EncSrcS CHUNK TAG ks tagc Src site_enc fuel_enc) x0 ->
+    Gstack CHUNK TAG BLOCK ks tagc dec Src si0 off0 (absStack x0) ->
+    Forall (fun op => Gstack CHUNK TAG BLOCK ks tagc dec Src si0 off0
+                        (absStack (Src3d.ar_src T (fst (Carry2Hist.hist_op_src k T site_index F fuel names ar0 op))))) ops ->
+    Carry2Hist.Foffs F fuel m ->
+    Forall (Carry2Hist.op_fuelled k T fuel names (Reader.mkR x0 m)) ops ->
+    Forall2 (Carry2Hist.op_fuelled k T fuel names) (hist_readers k T fuel names (Reader.mkR x0 m) ops) ops ->
+    Carry2Hist.hist_groups_src k T site_index F fuel names ar0 ops =
+    map (fun op => snd (Carry2Hist.hist_op_src k T site_index F fuel names ar0 op)) ops.
+Proof. exact Carry2Hist.history_independent_stack_src. Qed.
+
+Theorem C10_hist_op_src_is_hist_op : ltac:(let t := type of Carry2Hist.hist_op_src_eq in exact t).
+Proof. exact Carry2Hist.hist_op_src_eq. Qed.
+Theorem C10_hist_groups_src_is_hist_groups : ltac:(let t := type of Carry2Hist.hist_groups_src_eq in exact t).
+Proof. exact Carry2Hist.hist_groups_src_eq. Qed.
+Theorem C10_reader_parametric : ltac:(let t := type of @Carry2Sim.hist_op_resp in exact t).
+Proof. exact @Carry2Sim.hist_op_resp. Qed.
+Theorem C10_stack_sim_src : ltac:(let t := type of Carry2SimLayers.sim_stack in exact t).
+Proof. exact Carry2SimLayers.sim_stack. Qed.
+Theorem C10_enc_reader_functor_on_sims : ltac:(let t := type of Carry2SimLayers.enc_lift in exact t).
+Proof. exact Carry2SimLayers.enc_lift. Qed.
+Theorem C10_comp_reader_functor_on_sims : ltac:(let t := type of Carry2SimLayers.comp_lift in exact t).
+Proof. exact Carry2SimLayers.comp_lift. Qed.
+Theorem C10_stack_abs_is_sim : ltac:(let t := type of Carry2Hist.Astack_iff in exact t).
+Proof. exact Carry2Hist.Astack_iff. Qed.
+
+(* non-vacuity THROUGH THE GENERATED CODE: the archive of C10_example_stack_hist (two interleaved files, 3-byte header,
+   blocks of 8, chunks of 16, toy cipher) opened by the translated constructors / initialize / footer reader; the same
+   history: open file 0, read 2 bytes, abandon it; hash of file 1; read file 0 to the end; list — run by the translated
+   operations over the translated stack: the third group is still the whole file, and every group equals the rows of
+   its operation alone on the fresh reader *)
+Definition c2_T : Stream := Carry2Stack.StackSrc 16 4 8 toy_ks (toy_tag 4) (fun x => x) (Cursor exs_arch) 0 0 0 0 0.
+Definition c2_x0 : res (st c2_T) := Carry2Stack.stack_open_src 16 4 8 1000 toy_ks (toy_tag 4) (fun x => x) (Cursor exs_arch) 0 0 0 0 0 3.
+Example C10_example_history_src_computed :
+  match c2_x0 with
+  | Ok x0 =>
+    match CarryReader.src_open c2_T x0 with
+    | Ok ar =>
+      let groups := Carry2Hist.hist_groups_src consts_verif c2_T 0 3000 400 [[97]; [98]] ar exs_ops in
+      nth 2 groups [] = [[7; 5]; [0; 1; 2; 3]; [0; 4; 5]; [0]] /\
+      groups = map (fun op => snd (Carry2Hist.hist_op_src consts_verif c2_T 0 3000 400 [[97]; [98]] ar op)) exs_ops /\
+      SrcTie3Comp.wf (Carry2Stack.EncSrcS 16 4 toy_ks (toy_tag 4) (Cursor exs_arch) 0 0) x0
+    | _ => False
+    end
+  | _ => False
+  end.
+Proof. vm_compute. repeat split; reflexivity. Qed.
+Print Assumptions C10_history_independent_src.
+Print Assumptions C10_hist_op_src_is_hist_op.
+Print Assumptions C10_hist_groups_src_is_hist_groups.
+Print Assumptions C10_reader_parametric.
+Print Assumptions C10_stack_sim_src.
+Print Assumptions C10_enc_reader_functor_on_sims.
+Print Assumptions C10_comp_reader_functor_on_sims.
+Print Assumptions C10_stack_abs_is_sim.
